@@ -35,7 +35,7 @@ func (c11) RunBatch(ctx *core.Ctx, batch int) {
 			sizes = append(sizes, 3000, 5000)
 		}
 		for _, fam := range gen.Families {
-			for _, n := range sizes {
+			for _, n := range gen.Sizes(sizes, 8, 3000) {
 				in := fam.Make(n)
 				ctx.Case(fmt.Sprintf("family %s n=%d", fam.Name, n), func() { c11Check(ctx, "long", in, "dfl") })
 			}
@@ -189,6 +189,24 @@ func c11Check(ctx *core.Ctx, kind, in, f string) {
 		return
 	}
 	ctx.Count("pairs", 1)
+	// the option is an argument like any other: the outcome with it may not depend on which
+	// related texts were parsed before (the field written out in front of the query, the query
+	// parsed without the option)
+	if ctx.Index()%4 == 0 {
+		_, _, _ = parse(ctx, f+":"+in, "")
+		_, _, _ = parse(ctx, f+":("+in+")", "")
+		again, aerr, ok3 := parse(ctx, in, f)
+		plain2, perr2, ok4 := parse(ctx, in, "")
+		ctx.Count("related_call_sequences", 1)
+		if ok3 && ((aerr == nil) != (serr == nil) || (aerr == nil && !deepEqual(again, scoped))) {
+			ctx.Violate("c11:result-depends-on-earlier-calls", "Parse(%q, default field %q) gave %s (err %v) at first and %s (err %v) after the texts %q and %q had been parsed without the option", in, f, gostr(scoped), serr, gostr(again), aerr, f+":"+in, f+":("+in+")")
+			return
+		}
+		if ok4 && ((perr2 == nil) != (perr == nil) || (perr2 == nil && !deepEqual(plain2, plain))) {
+			ctx.Violate("c11:result-depends-on-earlier-calls", "Parse(%q) without the option gave %s (err %v) at first and %s (err %v) after it had been parsed with default field %q", in, gostr(plain), perr, gostr(plain2), perr2, f)
+			return
+		}
+	}
 	switch {
 	case perr == nil && serr != nil:
 		ctx.Violate("c11:rejected-with-default-field", "%q parses without a default field but fails with %q: %v", in, f, serr)
